@@ -293,6 +293,39 @@ class Facts:
         self.adts = {a["path"]: a for a in self.j["adts"]}
         self.impls = self.j["impls"]
         self.cg = self.j["callgraph"]
+        self.inlined = {}
+        self._inline_anchors()
+
+    # anchored functions whose private synchronous helpers are inlined (so that splitting such a
+    # function into helpers does not change what the rules see)
+    INLINE_ANCHORS = [
+        (r"^codegen::generate::(generate_code|check_references)$", r"^codegen::generate::",
+         r"::(process_references|load_code|generate_code|check_references)$|AsyncTempFile|ReferenceProcessor"),
+        (r"^parser::rust_parser::rust_log_ref_finder::find$", r"^parser::rust_parser::rust_log_ref_finder::",
+         r"::(find|macro_of_interest)$"),
+    ]
+
+    def _inline_anchors(self):
+        from .inline import inline_calls
+        for (anchor_pat, mod_pat, exclude_pat) in self.INLINE_ANCHORS:
+            for b in list(self.bodies):
+                if not re.search(anchor_pat, b.id):
+                    continue
+
+                def ok(cb, mod_pat=mod_pat, exclude_pat=exclude_pat):
+                    if cb.kind not in ("Fn", "AssocFn") or not re.search(mod_pat, cb.id) or re.search(exclude_pat, cb.id):
+                        return False
+                    if cb.nblocks > 400 or "::tests::" in cb.id:
+                        return False
+                    # synchronous only: an async fn's body is a coroutine child
+                    if any(c.kind.startswith("coroutine") for c in self.children.get(cb.id, [])):
+                        return False
+                    return True
+                nb = inline_calls(self, b, ok)
+                if nb is not b:
+                    self.inlined[b.id] = b
+                    self.by_id[b.id] = nb
+                    self.bodies[self.bodies.index(b)] = nb
 
     def body(self, ident):
         return self.by_id.get(ident)
